@@ -95,6 +95,13 @@ def gen_ds(rng, netcdf3=False, rich=False, lkinds=None, vkinds=None):
     for d in dims:
         kind = rng.choice(lkinds) if lkinds else (rng.choice(["i", "f"]) if netcdf3 else rng.choice(["i", "f", "O"]))
         ax = gen.clean(gen.rand_axis(rng, d, kind=kind, n=rng.randint(1, 3)))
+        if kind == "O" and ax["labels"] and rng.random() < 0.2:
+            # string labels that LOOK like dates without being full dates (a month 'YYYY-MM', a pair 'NN-NN'): they are
+            # strings and come back as strings (full 'YYYY-MM-DD' dates are read back as datetime64 by design)
+            pool = rng.choice([["2001-05", "2001-06", "2001-07"], ["01-02", "03-04", "05-06"], ["1999-12", "2000-01", "2000-02"]])
+            ax["labels"] = [["s", x] for x in pool[:len(ax["labels"])]]
+            if rng.random() < 0.5:
+                ax["labels"].reverse()
         ax["attrs_py"] = attrs_for(rng, 1)
         if rich:
             rich_attrs(rng, ax["attrs_py"])
